@@ -289,7 +289,8 @@ def main(argv=None):
                 assume_sites.append('%s:%d' % (os.path.relpath(f, ROOT), i))
 
     # 2. contracts
-    idxs = [i for i, c in enumerate(mod.CONTRACTS) if not a.only or a.only in c.cname]
+    # a contract may restrict itself to tiers (`tiers = ('thorough',)`): the quick tier then runs a stated subset of a case family
+    idxs = [i for i, c in enumerate(mod.CONTRACTS) if (not a.only or a.only in c.cname) and a.tier in getattr(c, 'tiers', ('quick', 'thorough'))]
     jobs = [(modname, i, a.tier, seed, a.repo) for i in idxs]
     if a.jobs > 1 and len(jobs) > 1:
         ctx = mp.get_context('fork')
